@@ -99,7 +99,29 @@ func act(id string, args ...interface{}) error {
 			}
 			return shFail(entry, script+"exit "+parts[1])
 		case "shnotran":
-			return sh.Run("verif-no-such-command-" + id)
+			// shnotran[:0:<entry>]  the command cannot be started
+			entry := "run"
+			if len(parts) > 2 {
+				entry = parts[2]
+			}
+			return shCall(entry, "verif-no-such-command-"+id)
+		case "shsig":
+			// shsig:<signal number>:<entry>  the child kills itself with that signal (no exit code of its own).
+			// sh.Exec expands $NAME in its arguments, so "$$" is spelled through a variable holding "$".
+			entry := "run"
+			if len(parts) > 2 {
+				entry = parts[2]
+			}
+			os.Setenv("VERIF_DOLLAR", "$")
+			return shFail(entry, "echo going down; kill -"+parts[1]+" ${VERIF_DOLLAR}${VERIF_DOLLAR}; sleep 5")
+		case "shcopy":
+			// shcopy:<1|2>  the child exits 0 but the io.Writer given to sh.Exec for its stdout (1) / stderr (2) fails
+			if parts[1] == "2" {
+				_, err := sh.Exec(nil, os.Stdout, failWriter{}, "sh", "-c", "echo data >&2")
+				return err
+			}
+			_, err := sh.Exec(nil, failWriter{}, os.Stderr, "sh", "-c", "echo data")
+			return err
 		case "kill":
 			syscall.Kill(os.Getpid(), syscall.SIGKILL)
 			time.Sleep(10 * time.Second)
@@ -125,31 +147,49 @@ func act(id string, args ...interface{}) error {
 
 // shFail runs the failing child through one of the entry points of package sh and hands its error on.
 func shFail(entry, script string) error {
+	return shCall(entry, "sh", "-c", script)
+}
+
+// shCall runs cmd through the entry point of package sh named by entry.
+func shCall(entry, cmd string, args ...string) error {
 	env := map[string]string{"VERIF_CHILD": "1"}
 	switch entry {
 	case "runv":
-		return sh.RunV("sh", "-c", script)
+		return sh.RunV(cmd, args...)
 	case "runwith":
-		return sh.RunWith(env, "sh", "-c", script)
+		return sh.RunWith(env, cmd, args...)
 	case "runwithv":
-		return sh.RunWithV(env, "sh", "-c", script)
+		return sh.RunWithV(env, cmd, args...)
 	case "output":
-		_, err := sh.Output("sh", "-c", script)
+		_, err := sh.Output(cmd, args...)
 		return err
 	case "outputwith":
-		_, err := sh.OutputWith(env, "sh", "-c", script)
+		_, err := sh.OutputWith(env, cmd, args...)
 		return err
 	case "exec":
-		_, err := sh.Exec(env, os.Stdout, os.Stderr, "sh", "-c", script)
+		_, err := sh.Exec(env, os.Stdout, os.Stderr, cmd, args...)
 		return err
 	case "runcmd":
-		return sh.RunCmd("sh", "-c")(script)
+		if len(args) > 0 {
+			return sh.RunCmd(cmd, args[:len(args)-1]...)(args[len(args)-1])
+		}
+		return sh.RunCmd(cmd)()
 	case "outcmd":
-		_, err := sh.OutCmd("sh", "-c")(script)
+		var err error
+		if len(args) > 0 {
+			_, err = sh.OutCmd(cmd, args[:len(args)-1]...)(args[len(args)-1])
+		} else {
+			_, err = sh.OutCmd(cmd)()
+		}
 		return err
 	}
-	return sh.Run("sh", "-c", script)
+	return sh.Run(cmd, args...)
 }
+
+// failWriter is an io.Writer (not an *os.File) every Write of which fails.
+type failWriter struct{}
+
+func (failWriter) Write(p []byte) (int, error) { return 0, errors.New("verif: writer is broken") }
 
 func must(err error) {
 	if err != nil {
@@ -206,6 +246,8 @@ def spec_string(behs):
             parts.append("%s=%s:%s" % (fid, b[0], ",".join(b[1])))
         elif b[0] == "sh" and len(b) > 2:
             parts.append("%s=sh:%d:%s:%s" % (fid, b[1], b[2], b[3]))
+        elif len(b) > 2:
+            parts.append("%s=%s" % (fid, ":".join(str(x) for x in b)))
         elif len(b) > 1:
             parts.append("%s=%s:%d" % (fid, b[0], b[1]))
         else:
@@ -235,6 +277,10 @@ def abs_body(fid, behs):
         return ["ok"] if b[1] == 0 else ["pfatal", b[1]]
     if k == "shnotran":
         return ["shnr"] if he else ["perr"]
+    if k == "shsig":
+        return ["shsig"] if he else ["perr"]
+    if k == "shcopy":
+        return ["shcopy"] if he else ["perr"]
     if k == "osexit":
         return ["exit", b[1]]
     if k in ("deps", "ctxdeps", "sdeps"):
@@ -260,6 +306,10 @@ def body_term(a):
         return "(BSh (CExit %s))" % coq_Z(a[1])
     if k == "shnr":
         return "(BSh CNotStarted)"
+    if k == "shsig":
+        return "(BSh CSignaled)"
+    if k == "shcopy":
+        return "BShCopyErr"
     if k == "exit":
         return "(BOsExit %s)" % coq_Z(a[1])
     if k == "deps":
@@ -294,8 +344,9 @@ def o_status(fid, behs):
     k = b[0]
     if k == "ok":
         return 0
-    if k in ("error", "panic-error", "panic-string", "panic-int", "shnotran"):
-        return 1                                   # plain error, non-error panic
+    if k in ("error", "panic-error", "panic-string", "panic-int", "shnotran", "shsig", "shcopy"):
+        return 1                                   # plain error, non-error panic; a failed sh command that has no exit
+                                                   # code of its own (not started, killed by a signal, output copy failed)
     if k in ("fatal", "fatalf", "panic-fatal", "osexit"):
         return b[1]                                # the code of mg.Fatal / mg.Fatalf; os.Exit's argument
     if k == "sh":
@@ -329,7 +380,7 @@ def o_tokens(fid, behs, msg=None):
         return [str(4200 + b[1])]
     if k == "sh":
         return ["exit code %d" % b[1]] if b[1] else []
-    if k == "shnotran":
+    if k in ("shnotran", "shsig", "shcopy"):
         return ["failed to run"]
     if k in ("deps", "ctxdeps"):
         out = []
@@ -421,7 +472,7 @@ def scen(fa=None, bd=None, start=True, pr=None, init_err=False, clean_err=False,
 SAMPLE_CODES = [1, 2, 3, 5, 7, 37, 64, 99, 100, 125, 126, 127, 128, 129, 130, 137, 143, 200, 250, 254, 255]
 CODE_KINDS = ["fatal", "fatalf", "panic-fatal", "osexit", "sh", "sh-dep", "deps-equal", "deps-diff", "deps-sametext-equal", "deps-sametext-diff"]
 SAME_TEXT = "step failed"
-PLAIN_KINDS = ["error", "panic-error", "panic-string", "panic-int", "shnotran"]
+PLAIN_KINDS = ["error", "panic-error", "panic-string", "panic-int", "shnotran", "shsig", "shcopy"]
 LEAF_DEPS = ["d1", "d2", "d3", "d4", "d5", "d6"]
 
 
@@ -440,6 +491,19 @@ def sh_beh(rng, k, shspec=None):
     """a failing sh command: exit code k, through entry point e, child writing to stdout/stderr as noise says"""
     e, n = shspec or (rng.choice(SH_ENTRIES), rng.choice(SH_NOISE + ["o", "oe"]))
     return ("sh", k, e, n)
+
+
+def plain_beh(rng, kind, shspec=None):
+    """a failure without a status of its own; shspec = (kind, arg, entry) fixes the sh variant"""
+    if kind == "panic-int":
+        return (kind, rng.choice([1, 2, 3]))
+    if kind == "shnotran":
+        return ("shnotran", 0, shspec[2] if shspec else rng.choice(SH_ENTRIES))
+    if kind == "shsig":
+        return ("shsig", shspec[1] if shspec else rng.choice([9, 15]), shspec[2] if shspec else rng.choice(SH_ENTRIES))
+    if kind == "shcopy":
+        return ("shcopy", shspec[1] if shspec else rng.choice([1, 2]))
+    return (kind,)
 
 
 def leaf_failure(rng, c):
@@ -461,7 +525,14 @@ def gen_failure(rng, fid, kind, c, behs, shspec=None):
     elif kind in ("fatal", "fatalf", "panic-fatal", "osexit"):
         behs[fid] = (kind, c)
     elif kind in PLAIN_KINDS:
-        behs[fid] = (kind, rng.choice([1, 2, 3])) if kind == "panic-int" else (kind,)
+        behs[fid] = plain_beh(rng, kind, shspec)
+    elif kind == "plain-dep":
+        # a dependency fails with a plain error / a sh command without an exit code of its own (shspec = (kind, arg, entry))
+        ds = rng.sample(LEAF_DEPS, rng.choice([1, 1, 2, 3]))
+        for i, d in enumerate(ds):
+            behs[d] = plain_beh(rng, shspec[0] if shspec else rng.choice(PLAIN_KINDS), shspec) if i == 0 else ("ok",)
+        rng.shuffle(ds)
+        behs[fid] = (rng.choice(["deps", "ctxdeps", "sdeps"]), ds)
     elif kind == "deps-equal":
         # a failed dependency set whose failed members all carry c
         n = rng.choice([1, 2, 2, 3, 4])
@@ -479,7 +550,7 @@ def gen_failure(rng, fid, kind, c, behs, shspec=None):
                 behs[d] = leaf_failure(rng, c)
             elif i == 1:
                 r = rng.random()
-                behs[d] = leaf_failure(rng, other_code(rng, c)) if r < 0.6 else ((rng.choice(["error", "panic-error", "panic-string"]),) if (r < 0.9 or c == 1) else ("osexit", other_code(rng, c)))
+                behs[d] = leaf_failure(rng, other_code(rng, c)) if r < 0.6 else (plain_beh(rng, rng.choice(["error", "panic-error", "panic-string", "shsig", "shcopy", "shnotran"])) if (r < 0.9 or c == 1) else ("osexit", other_code(rng, c)))
             else:
                 behs[d] = rng.choice([("ok",), leaf_failure(rng, c), leaf_failure(rng, other_code(rng, c)), ("error",)])
         rng.shuffle(ds)
@@ -594,8 +665,17 @@ def line_cases(ctx):
             for n in SH_NOISE:
                 lines.append(gen_line(rng, "sh" if (i + ki) % 2 == 0 else "sh-dep", k, shspec=(e, n)))
                 i += 1
+    # sh commands without an exit code of their own: killed by a signal / output copy fails / cannot be started, through
+    # every entry point, directly in a target and as a dependency, all three routes
+    noexit = [("shsig", sig, e) for sig in (9, 15) for e in SH_ENTRIES] + [("shcopy", w, None) for w in (1, 2)] + \
+             [("shnotran", 0, e) for e in SH_ENTRIES]
+    for sp in noexit:
+        for kind in (sp[0], "plain-dep"):
+            l = gen_line(rng, kind, 1, shspec=sp)
+            l["routes"] = "all"
+            lines.append(l)
     # every position of a three-target line for a few kinds
-    for kind in ("fatal", "error", "unknown", "deps-diff", "deps-sametext-diff", "sh", "sh-dep"):
+    for kind in ("fatal", "error", "unknown", "deps-diff", "deps-sametext-diff", "sh", "sh-dep", "shsig", "shcopy", "plain-dep"):
         for p in range(3):
             for _ in range(20):
                 l = gen_line(rng, kind, rng.choice(codes), npos=p)
@@ -616,7 +696,7 @@ def line_to_cases(ctx, l, idx):
     out = []
     routes = ["compiled", "hash"]
     mage_share = 0.18 if ctx.quick else 0.5
-    if rng.random() < (0.5 if l["fail"] in ("unknown", "missing", "badarg") else mage_share):
+    if rng.random() < (0.5 if l["fail"] in ("unknown", "missing", "badarg") else mage_share) or l.get("routes") == "all":
         routes.append("mage")
     for r in routes:
         c = dict(l)
